@@ -91,6 +91,14 @@ Theorem C04_swap_transaction_moves_exactly_these_balances : forall w sender fund
         + ind (String.eqb a fc) (ind (String.eqb ask d) (sc_protocol_fee sc)).
 Proof. exact swap_tx_balances. Qed.
 
+(* ... and the burn fee is destroyed from the supply of the ask denom; no other supply changes *)
+Theorem C04_swap_transaction_burns_exactly_the_burn_fee : forall w sender funds ask bp ms r pid w',
+  run_tx w sender PM (WPm (PmSwap ask bp ms r pid)) funds = Ok w' ->
+  exists offer sc,
+    one_coin funds = Ok offer /\ query_simulation (w_pm w) offer ask pid = Ok sc /\
+    forall d, supply (w_bank w') d = supply (w_bank w) d - ind (String.eqb ask d) (sc_burn_fee sc).
+Proof. exact swap_tx_supplies. Qed.
+
 Print Assumptions C04_fees_are_floored_shares.
 Print Assumptions C04_fee_never_more_than_share.
 Print Assumptions C04_reserve_update.
@@ -98,3 +106,4 @@ Print Assumptions C04_swap_messages.
 Print Assumptions C04_route_chain.
 Print Assumptions C04_route_messages.
 Print Assumptions C04_swap_transaction_moves_exactly_these_balances.
+Print Assumptions C04_swap_transaction_burns_exactly_the_burn_fee.
